@@ -14,7 +14,7 @@ ASSUMPTIONS = ["signatures present are non-malleable (ground-truth table)",
 SHARED_DEFECTS = [None, "sublinks_missing", "sublinks_in_parent_dir", "sublink_tampered", "sublink_unauthorised",
                   "foreign_step_rule", "foreign_step_rule"]
 DEFECTS = [None, None, "wrong_signer", "expired", "edited", "sublinks_missing", "sublinks_in_parent_dir",
-           "sublink_tampered", "subrule", "subinspection_fail"]
+           "sublink_tampered", "subrule", "subinspection_fail", "subinspection_slow"]
 
 
 def find_spec(ch, path):
@@ -150,6 +150,10 @@ def gen_case(rng, root):
             st["rules"] = ([["DISALLOW", "*"]] if st["materials"] else [["REQUIRE", "nothing"]], [["REQUIRE", "not-there"]])
         elif defect == "subinspection_fail":
             sub.inspections = [{"name": "failing", "ident": "f%d" % rng.randrange(1000), "action": "exit1"}]
+        elif defect == "subinspection_slow":
+            # (the verifier's time limit - 5 s here, see one_case - applies at every depth; the command sleeps 8.5 s,
+            #  which is within the 10 s default)
+            sub.inspections = [{"name": "slow", "ident": "w%d" % rng.randrange(1000), "action": "sleep"}]
     else:
         desc["defect"] = None
     desc["expected_accept"] = desc["defect"] is None
@@ -163,6 +167,8 @@ def one_case(rng, res):
         scn = scen.build(ch, root, rng)
         scn.params = vcommon.pick_params(rng, desc)
         vcommon.pick_tz(rng, scn, desc)
+        if desc["defect"] == "subinspection_slow":
+            scn.meta["inspect_timeout"] = 5
         i, m, _ = vcommon.run_case(scn, desc, res, desc["n_sublayouts"] > 0)
         res.count("defect_%s" % desc["defect"]); res.count("depth_%d" % desc["depth"])
         if vcommon.accepted(i):
